@@ -51,7 +51,7 @@ MANIFEST = {
             "impl vs Lean model vs Lean spec vs oracle.",
     "note": "gzip/BGZF decompression, NumPy indexing and npstructures ragged slicing are modelled as list operations and exercised "
             "by the correspondence; int32 wrap-around outside the validity bounds (pos + reference length >= 2^31, l_seq >= 2^31) "
-            "is outside the modelled domain. Measured (16 cores, seeds 0-3): quick 28-40 s / ~3.4k cases, thorough 2-4 min / ~60k cases "
+            "is outside the modelled domain. Measured (16 cores, seeds 0-3): quick 19-31 s / ~3.4k cases, thorough 3-5 min / ~59k cases "
             "(every chunk size from the largest record to file size + 2 for the small files). Defects found and fixed in /repo: "
             "ebaee36 (unmapped -> last reference name; zero-reference BAM unreadable), d080e2f (uint16 wrap of n_cigar_op*4).",
     "technique": "Lean 4 proof (induction over the record list) over an executable decoder model + spec-level encoder; tables regenerated "
